@@ -8,6 +8,7 @@ import (
 	"testing"
 	"time"
 
+	"github.com/ory/keto/internal/namespace"
 	"github.com/ory/keto/internal/namespace/ast"
 	"github.com/ory/keto/internal/schema"
 	"github.com/ory/keto/ketoapi"
@@ -54,6 +55,7 @@ func oplText(chars []string) string {
 
 type parseObs struct {
 	Panic      string   `json:"panic,omitempty"`
+	Hang       bool     `json:"hang,omitempty"` // Parse had not returned after parseGrace
 	NNamespace int      `json:"nns"`
 	NErrors    int      `json:"nerr"`
 	Bad        []string `json:"bad,omitempty"` // violated clauses about error positions / rendering
@@ -66,6 +68,8 @@ type parseObs struct {
 }
 
 // parseTotal runs the parser and everything that can be done with its errors.
+const parseGrace = 20 * time.Second
+
 func (e *storeEnv) parseTotal(src string, transports bool) (o parseObs) {
 	defer func() {
 		if p := recover(); p != nil {
@@ -73,7 +77,35 @@ func (e *storeEnv) parseTotal(src string, transports bool) (o parseObs) {
 		}
 	}()
 	t0 := time.Now()
-	nss, errs := schema.Parse(src)
+	// "terminates": a parse that has not returned after parseGrace is reported as such and abandoned
+	type parsed struct {
+		nss  []namespace.Namespace
+		errs []*schema.ParseError
+		pan  any
+	}
+	pch := make(chan parsed, 1)
+	go func() {
+		defer func() {
+			if p := recover(); p != nil {
+				pch <- parsed{pan: p}
+			}
+		}()
+		n, e := schema.Parse(src)
+		pch <- parsed{nss: n, errs: e}
+	}()
+	var nss []namespace.Namespace
+	var errs []*schema.ParseError
+	select {
+	case r := <-pch:
+		if r.pan != nil {
+			panic(r.pan)
+		}
+		nss, errs = r.nss, r.errs
+	case <-time.After(parseGrace):
+		o.Hang = true
+		o.Ms = time.Since(t0).Milliseconds()
+		return
+	}
 	o.Ms = time.Since(t0).Milliseconds()
 	o.NNamespace, o.NErrors = len(nss), len(errs)
 	lines := strings.Count(src, "\n") + 1
@@ -389,7 +421,9 @@ func famOPL(t *testing.T) {
 		}
 		src := oplText(chars)
 		res := map[string]any{"lex": i}
-		func() {
+		lexDone := make(chan struct{})
+		go func() {
+			defer close(lexDone)
 			defer func() {
 				if p := recover(); p != nil {
 					res["panic"] = fmt.Sprint(p)
@@ -398,6 +432,13 @@ func famOPL(t *testing.T) {
 			items, ok := schema.VerifLex(src, len(src)+5)
 			res["items"], res["terminated"] = items, ok
 		}()
+		select {
+		case <-lexDone:
+		case <-time.After(parseGrace):
+			// the lexer is stuck: reported as "did not finish"; the goroutine is abandoned (res is not touched by it any more
+			// in practice, and a copy is written)
+			res = map[string]any{"lex": i, "items": []any{}, "terminated": false}
+		}
 		res["parse"] = e.parseTotal(src, i%7 == 0)
 		out.write(res)
 	}
